@@ -25,6 +25,10 @@ CLAIMED = {
             "Static, every cut offset and fault kind at once for the clauses that are code shape: the reader has no Ok exit; in read_response_frame the header is a propagated read_exact, a zero-byte read leads to an error exit and cannot re-enter the loop, and Ok is reachable only when the declared length was filled; on the Err outcome of try_join! every path to the router's exit collects the handler map, sends Err to each of its handlers and notifies the pool; both awaits of send_request map a dropped channel end to BrokenConnectionError and nothing unwraps; wrong header version/direction and keepalive timeouts are error exits; a kept connection is always watched and its removal republishes the list. Promptness and TCP behaviour are not decided.",
             "Trusts rustc MIR; anchors are roles (read_buf loop, try_join result, oneshot sends) and fail closed when rewritten.",
             "DESIGN.md §3 C10"),
+    "C13": ("dataflow guards on the speculative loop of the pre-lowering coroutine (start sites vs. counter, exits vs. can_be_ignored / emptiness), who-may-call for the gate",
+            "Static, all schedules for the clauses that are code shape: execute() is entered only inside `if self.is_idempotent`; one original start outside the loop; every speculative start lies in the retries_remaining > 0 region and cannot recur without the decrement, the counter is otherwise only zeroed (=> at most 1 + max starts); execute returns either a result for which can_be_ignored was false or only where async_tasks.is_empty() and retries_remaining == 0. Liveness of the select loop is not decided.",
+            "Trusts rustc MIR and the futures::select!/FuturesUnordered semantics.",
+            "DESIGN.md §3 C13"),
     "C15": ("who-writes census on the tablet list, normalised comparison extraction from the predicate closures (sibling agreement lookup vs. insert), cut/dominance rules on add_tablet, dataflow guard on payload validation",
             "Static, history-independent necessary conditions: tablet_list is mutated only by add_tablet - through exactly one drain then one insert on every path - and by maintenance; range bounds are immutable; the two overlap bounds of insert are the very predicates the lookup uses (t.last < x / t.first <= x instantiated at new.first / new.last) and drain(left..right) precedes insert(left); a payload is accepted only where last > first; per-DC replica lists are filled from the full list; unresolvable tablets are dropped and the unknown-replica flags can only be raised by add_tablet. The invariant over histories as such is not enumerated.",
             "Trusts rustc MIR; the rule compares siblings inside the crate rather than a frozen table.",
